@@ -4,4 +4,6 @@ BlockL0 == <<0, 0, 0, 0, 0>>     \* all model pages in one checksum block
 BlockL1 == <<0, 0, 1, 1, 2>>     \* pages {1,2} {3,4} {5}: block-straddling layout
 BlockL2 == <<0, 1, 1, 1, 2>>     \* pages {1} {2,3,4} {5}: sizes 2 and 3 differ by one page inside block 1
 BlockL3 == <<0, 1, 1, 2, 2>>     \* pages {1} {2,3} {4,5}: page 3 (and 5) is the last page of its block
+\* the lock-page layout L4 (64 KiB pages): real pages 1, 16384, 16385 = lock page, 16386, 16641
+BlockL4 == <<0, 63, 64, 64, 65>>
 ====
